@@ -364,7 +364,21 @@ def run(ck, facts, tier):
             got = cel.Ev(facts, hooks=hk).apply_fn(fn, [me, L, Rr], 0)
             ia, ib = Sym("m", "get_index_of", vkey(CUR), (vkey(L),)), Sym("m", "get_index_of", vkey(CUR), (vkey(Rr),))
             want = Sym("ctor", "Some", Sym("ctor", variant, Poly.atom(("call", "index", (vkey(arr), vkey(Tup([ia, ib])))))))
-            ck.check(r6, "rate[%s]" % variant, vkey(got) == vkey(want), "rate does not read [idx(lhs), idx(rhs)] of the %s matrix" % variant, where, detail=cel.vfmt(got)[:300],
+            okr = vkey(got) == vkey(want)
+            if not okr and isinstance(got, cel.Alt):
+                # the same look-up written as a match on the two optional positions: one Some path under "both currencies known", None otherwise; a position read
+                # through a pattern is `payload(opt)` where `opt?` reads `opt`
+                ps_ = paths.flatten(got)
+                somes = [(c, v) for c, v in ps_ if not (isinstance(v, Sym) and v.tag[:2] == ("ctor", "None"))]
+                def unpay(k):
+                    if isinstance(k, tuple):
+                        if len(k) == 4 and k[:2] == ("sym", "payload") and k[3] == 0 and k[2] in (vkey(ia), vkey(ib)):
+                            return k[2]
+                        return tuple(unpay(x) for x in k)
+                    return k
+                lookups = (repr(vkey(ia)), repr(vkey(ib)))
+                okr = len(somes) == 1 and unpay(vkey(somes[0][1])) == vkey(want) and all(p_ and any(l_ in repr(a_) for l_ in lookups) for a_, p_ in somes[0][0])
+            ck.check(r6, "rate[%s]" % variant, okr, "rate does not read [idx(lhs), idx(rhs)] of the %s matrix" % variant, where, detail=cel.vfmt(got)[:300],
                      sample="Some(%s(arr[[idx(lhs), idx(rhs)]]))" % variant)
         except Unsupported as e:
             ck.fail(r6, "rate[%s]" % variant, "rule could not be established (%s)" % e, where)
